@@ -204,90 +204,8 @@ func checkC03(w *World, r *Report) {
 
 	// ------------------------------------------------------------ R03.3
 	chIface := w.Interface("internal/server", "Channel")
-	var openM *types.Func
-	if chIface != nil {
-		for i := 0; i < chIface.NumMethods(); i++ {
-			if chIface.Method(i).Name() == "OpenConnection" {
-				openM = chIface.Method(i)
-			}
-		}
-	}
 	muxH := w.Method("internal/server", "ConnectionHandler", "muxHandler")
-	nopen := 0
-	for fn := range mods {
-		for _, c := range callsIn(fn) {
-			f := sCallee(c)
-			if f == nil || f.Name() != "OpenConnection" {
-				continue
-			}
-			if !(f == openM || (recvNamed(f) != nil && chIface != nil && implementsIface(types.NewPointer(recvNamed(f)), chIface))) {
-				continue
-			}
-			nopen++
-			key := "call:Channel.OpenConnection@" + ssaFuncKey(fn)
-			pos := w.Pos(c.Pos())
-			obj, _ := fn.Object().(*types.Func)
-			if obj != muxH {
-				r.Violate("R03.3", key, pos, "a channel is opened outside the multiplexer handler (no protocol-name guard)")
-				continue
-			}
-			var recv ssa.Value
-			if c.Common().IsInvoke() {
-				recv = c.Common().Value
-			} else {
-				recv = c.Common().Args[0]
-			}
-			protocol := fn.Params[1]
-			isGuard := func(v ssa.Value) bool {
-				b, ok := v.(*ssa.BinOp)
-				if !ok || b.Op != token.EQL {
-					return false
-				}
-				for _, pair := range [][2]ssa.Value{{b.X, b.Y}, {b.Y, b.X}} {
-					if pair[0] != ssa.Value(protocol) {
-						continue
-					}
-					named, ok := protocolIdOf(pair[1])
-					if !ok {
-						continue
-					}
-					if named == recv {
-						return true
-					}
-				}
-				return false
-			}
-			guardedHere := dominatedByCond(fn, c, isGuard, true)
-			if !guardedHere {
-				// the channel may come from a lookup helper: h(..., protocol, ...) returns a channel only on a path
-				// where protocol == "/"+Name() of that very element holds
-				for _, root := range provenance(recv, provOpts{}) {
-					call, ok := root.(*ssa.Call)
-					if ex, isEx := root.(*ssa.Extract); isEx && ex.Index == 0 {
-						call, ok = ex.Tuple.(*ssa.Call)
-					}
-					if !ok {
-						continue
-					}
-					h := call.Call.StaticCallee()
-					if h == nil || !inModule(h) {
-						continue
-					}
-					for ai, a := range call.Call.Args {
-						if a == ssa.Value(protocol) && c03LookupByExactName(h, ai) {
-							guardedHere = true
-						}
-					}
-				}
-			}
-			r.Check(guardedHere, "R03.3", key, pos,
-				"OpenConnection is control-dependent on protocol == \"/\"+Name() of the channel being opened",
-				"OpenConnection is not guarded by an exact equality between the requested protocol and \"/\"+Name() of the same channel: a request can be routed to a channel it did not name")
-		}
-	}
-	if nopen == 0 {
-		r.Undecided("R03.3", "call:Channel.OpenConnection", "-", "no call site of Channel.OpenConnection found")
-	}
+	c03OpenGuard(w, r, "R03.3")
 
 	// ------------------------------------------------------------ R03.4
 	for _, m := range []*types.Func{find, filter, muxH} {
@@ -956,4 +874,96 @@ func protocolIdOf(v ssa.Value) (ssa.Value, bool) {
 		}
 	}
 	return nil, false
+}
+
+// c03OpenGuard: R03.3 (also C01 R01.11) — Channel.OpenConnection is invoked only in the multiplexer handler,
+// under a string equality between the requested protocol and "/"+Name() of the very channel opened.
+func c03OpenGuard(w *World, r *Report, rule string) {
+	mods := allModuleFuncs(w, w.SSA())
+	chIface := w.Interface("internal/server", "Channel")
+	var openM *types.Func
+	if chIface != nil {
+		for i := 0; i < chIface.NumMethods(); i++ {
+			if chIface.Method(i).Name() == "OpenConnection" {
+				openM = chIface.Method(i)
+			}
+		}
+	}
+	muxH := w.Method("internal/server", "ConnectionHandler", "muxHandler")
+	nopen := 0
+	for fn := range mods {
+		for _, c := range callsIn(fn) {
+			f := sCallee(c)
+			if f == nil || f.Name() != "OpenConnection" {
+				continue
+			}
+			if !(f == openM || (recvNamed(f) != nil && chIface != nil && implementsIface(types.NewPointer(recvNamed(f)), chIface))) {
+				continue
+			}
+			nopen++
+			key := "call:Channel.OpenConnection@" + ssaFuncKey(fn)
+			pos := w.Pos(c.Pos())
+			obj, _ := fn.Object().(*types.Func)
+			if obj != muxH {
+				r.Violate(rule, key, pos, "a channel is opened outside the multiplexer handler (no protocol-name guard)")
+				continue
+			}
+			var recv ssa.Value
+			if c.Common().IsInvoke() {
+				recv = c.Common().Value
+			} else {
+				recv = c.Common().Args[0]
+			}
+			protocol := fn.Params[1]
+			isGuard := func(v ssa.Value) bool {
+				b, ok := v.(*ssa.BinOp)
+				if !ok || b.Op != token.EQL {
+					return false
+				}
+				for _, pair := range [][2]ssa.Value{{b.X, b.Y}, {b.Y, b.X}} {
+					if pair[0] != ssa.Value(protocol) {
+						continue
+					}
+					named, ok := protocolIdOf(pair[1])
+					if !ok {
+						continue
+					}
+					if named == recv {
+						return true
+					}
+				}
+				return false
+			}
+			guardedHere := dominatedByCond(fn, c, isGuard, true)
+			if !guardedHere {
+				// the channel may come from a lookup helper: h(..., protocol, ...) returns a channel only on a path
+				// where protocol == "/"+Name() of that very element holds
+				for _, root := range provenance(recv, provOpts{}) {
+					call, ok := root.(*ssa.Call)
+					if ex, isEx := root.(*ssa.Extract); isEx && ex.Index == 0 {
+						call, ok = ex.Tuple.(*ssa.Call)
+					}
+					if !ok {
+						continue
+					}
+					h := call.Call.StaticCallee()
+					if h == nil || !inModule(h) {
+						continue
+					}
+					for ai, a := range call.Call.Args {
+						if a == ssa.Value(protocol) && c03LookupByExactName(h, ai) {
+							guardedHere = true
+						}
+					}
+				}
+			}
+			r.Check(guardedHere, rule, key, pos,
+				"OpenConnection is control-dependent on protocol == \"/\"+Name() of the channel being opened",
+				"OpenConnection is not guarded by an exact equality between the requested protocol and \"/\"+Name() of the same channel: a request can be routed to a channel it did not name")
+		}
+	}
+	if nopen == 0 {
+		r.Undecided(rule, "call:Channel.OpenConnection", "-", "no call site of Channel.OpenConnection found")
+	}
+
 }
